@@ -47,3 +47,40 @@ def register(w):
       pure={'inspect.ismethod': 'bool'},
       ensures=['implies(inspect.ismethod(entity), result is entity.__func__)',
                'implies(not inspect.ismethod(entity), result is entity)']))
+
+  # property C10: "The source transformation of a given (code object, options) pair runs at most once":
+  # double-checked locking -- a lock-free lookup; on a miss the lookup is repeated under the lock, and only a
+  # second miss transforms, creates the factory and THEN publishes it; the result is always instantiated with
+  # the requesting function's own globals, closure and defaults ("functions that share code but differ in
+  # closure, globals or defaults are never confused").  Event mode: the cache, the lock, the factory and the
+  # parent transform are opaque; their calls (and subscript stores) are the observable events.
+  w.add_class(ClassInfo('PyToPyT', pyname='PyToPy', module='malt.pyct.transpiler',
+                        fields={'_cache': 'Any', '_cache_lock': 'Any'}))
+  w.add(Contract(
+      'malt.pyct.transpiler.PyToPy.transform_function', mode='event', serves=['C10', 'C09'],
+      callbacks=['get_caching_key', 'get_extra_locals'],
+      spec='''
+def spec(self, fn, user_context):
+  cache_subkey = self.get_caching_key(user_context)
+  if self._cache.has(fn, cache_subkey):
+    factory = self._cached_factory(fn, cache_subkey)
+  else:
+    with self._cache_lock:
+      if self._cache.has(fn, cache_subkey):
+        factory = self._cached_factory(fn, cache_subkey)
+      else:
+        logging.log(1, '%s is not cached for subkey %s', fn, cache_subkey)
+        nodes, ctx = super(PyToPy, self).transform_function(fn, user_context)
+        if isinstance(nodes, ast.Lambda):
+          nodes = ast.Assign(targets=[ast.Name(ctx.info.name, ctx=ast.Store())], value=nodes)
+        else:
+          nodes.name = ctx.info.name
+        if logging.has_verbosity(2):
+          logging.log(2, 'Transformed %s:\\\\n\\\\n%s\\\\n', fn, parser.unparse(nodes))
+        factory = _PythonFnFactory(ctx.info.name, fn.__code__.co_freevars, self.get_extra_locals())
+        factory.create(nodes, ctx.namer, future_features=ctx.info.future_features)
+        self._cache[fn][cache_subkey] = factory
+  transformed_fn = factory.instantiate(globals_=fn.__globals__, closure=fn.__closure__ or (),
+                                       defaults=fn.__defaults__, kwdefaults=getattr(fn, '__kwdefaults__', None))
+  return transformed_fn, factory.module, factory.source_map
+'''))
